@@ -272,6 +272,19 @@ pub fn run_c01(ctx: &Ctx) {
         l3gen::c07_strategy,
         |c| crate::l3::run_case(c, crate::l3::Prop::C01),
     );
+    // the worker's side of "connections still queued at a worker when it shuts down are released"
+    {
+        let rule = format!("{RULE_L3}; here: stop scripts (shutdown_timeout 0/1/2/5 s, connections in progress, queued, and arriving while the worker shuts down); oracle: a graceful stop is not held up by connections that were never handed to a service (they are released at once, so the stop completes within a tick of its connections in progress having finished); non-trivial = a stop was issued with connections in progress");
+        ctx.run_random(
+            Part::new("l3-shutdown", &rule, ctx.tier.scale(20_000, 10)).floors(&[("stop-with-connections-in-progress", 0.2), ("graceful-stop", 0.4)]).shrink_iters(2000),
+            l3gen::c06_strategy,
+            |c| {
+                let mut o = crate::l3::run_case(c, crate::l3::Prop::C01)?;
+                o.nontrivial = o.labels.contains(&"stop-with-connections-in-progress");
+                Ok(o)
+            },
+        );
+    }
     run_l4_part(ctx, crate::l4::Prop::C01, crate::l4::gen::P { pause: 1, inject: 0, panic: 0, stop: 0, busy: 0, uds: true, max_limit: 3, taskpanic: 1, abort: 2 }, ctx.tier.scale(300, 4), &[("served-by>=2-workers", 0.2), ("registered-by-address", 0.15), ("registered-by-address-list", 0.15), ("accounting-with-client-resets", 0.1), ("client-reset-in-backlog", 0.05)], "connections were served by at least two worker threads or two listeners exist (each connection is served exactly once by the service of the listener it connected to)");
     run_l4_part_named(ctx, "l4-faults", crate::l4::Prop::C01, crate::l4::gen::P { pause: 0, inject: 0, panic: 4, stop: 0, busy: 0, uds: false, max_limit: 2, taskpanic: 0, abort: 0 }, ctx.tier.scale(160, 4), &[("worker-panic", 0.2), ("connects-right-after-fault", 0.1)], "a worker was killed by a panic inside Service::call and connections arrived right after it (with two or more workers none of them may be discarded; service instances may take 500 ms to drop while the worker unwinds)");
 }
